@@ -32,13 +32,14 @@ theorem substL_eq_map (σ : Schema) (x : Nat) (r : Node) (row : ClassRow) : ∀ 
 
 def GoodRep (σ : Schema) (x : Nat) (r : Node) (k : Node) (f : Tr Unit) : Prop :=
   okTree σ k = true → ∀ a b pq st,
-    (k.tag = x → (f a b pq st).repl = some r) ∧
+    (k.tag = x → (f a b pq st).repl = some r ∧ (f a b pq st).truthy = true) ∧
     (k.tag ≠ x → (f a b pq st).repl = none ∧ (f a b pq st).self = subst σ x r k)
 
 def GoodRepVia (σ : Schema) (x : Nat) (r : Node) (k : Node) (g : Nat → Tr Unit) : Prop :=
   ∀ (e : Entry) q, e.via = some q → contCond (σ.row k.cls) e (slotsOf k.kids) = true →
     okKids σ (σ.row k.cls) k.kids = true →
     ∀ pq st, (g q e.isTable e.isTarget pq st).self = k.setKids (substL σ x r (σ.row k.cls) k.kids)
+      ∧ (g q e.isTable e.isTarget pq st).truthy = true
 
 abbrev GR (σ : Schema) (x : Nat) (r : Node) (it : Item Unit) (k : Node) : Prop :=
   it.node = k ∧ GoodRep σ x r k it.tr ∧ GoodRepVia σ x r k it.via
@@ -116,7 +117,7 @@ theorem runEntry_rep (σ : Schema) (x : Nat) (r : Node) (row : ClassRow) (e : En
             cases k with
             | mk c0 s0 t0 ks0 =>
               simp only [Node.tag] at hx
-              simp [applyRepl, g1, hsame, hvia, subst, hx, Node.slot]
+              simp [applyRepl, g1.1, g1.2, hsame, hvia, subst, hx, Node.slot]
           · have g2 := g.2 hx
             simp [applyRepl, g2.1, g2.2]
         | some q =>
@@ -129,8 +130,8 @@ theorem runEntry_rep (σ : Schema) (x : Nat) (r : Node) (row : ClassRow) (e : En
           simp only [runEntry, hs, if_true, hvia, upd, hs', rr]
           congr 1
           simp only [substKid, hreq', hc, Bool.false_eq_true, if_false, if_true]
-          rw [← g, hn]
-          cases ho : (it.via q e.isTable e.isTarget pq' st).repl <;> simp [applyRepl, ho, hsame, hvia]
+          rw [← g.1, hn]
+          cases ho : (it.via q e.isTable e.isTarget pq' st).repl <;> simp [applyRepl, ho, hsame, hvia, g.2]
       · have hs' : k.slot ≠ e.slot := hn ▸ hs
         have rr := ih (KidR.tail hK) cs st hl'
         simp only [runEntry, hs, if_false, upd, hs', rr]
@@ -244,7 +245,7 @@ theorem viaRun_rep (σ : Schema) (x : Nat) (r : Node) (q : Nat) (a b : Bool) (pq
             simp only [Node.tag] at hx
             simp only [Node.slot] at hs'
             subst hs'
-            simp [g1, subst, hx]
+            simp [g1.1, subst, hx]
         · have g2 := g.2 hx
           simp [g2.1, g2.2]
       · symm
@@ -257,7 +258,8 @@ theorem viaRun_rep (σ : Schema) (x : Nat) (r : Node) (q : Nat) (a b : Bool) (pq
       simp only [viaRun, hs, if_false, List.map_cons, hs', rr]
 
 /-- T13.1 (replacement) for every traversal -/
-theorem goodrep_all (σ : Schema) (x : Nat) (r : Node) : ∀ t, GoodRep σ x r t (tr σ (cbAt x r) t) := by
+theorem goodrep_all (σ : Schema) (x : Nat) (r : Node) (htr : truthyIn σ r = true) :
+    ∀ t, GoodRep σ x r t (tr σ (cbAt x r) t) := by
   intro t
   refine (tr_ind σ (cbAt x r) (GoodRep σ x r) (GoodRepVia σ x r) ?_ t).1
   intro c s t ks its h
@@ -274,7 +276,7 @@ theorem goodrep_all (σ : Schema) (x : Nat) (r : Node) : ∀ t, GoodRep σ x r t
     refine ⟨?_, ?_⟩
     · intro hx
       simp only [Node.tag] at hx
-      simp [step, cbAt, Node.tag, hx]
+      simp [step, cbAt, Node.tag, hx, htr]
     · intro hx
       simp only [Node.tag] at hx
       simp only [step, cbAt, Node.tag, hx, if_false]
@@ -302,7 +304,7 @@ theorem goodrep_all (σ : Schema) (x : Nat) (r : Node) : ∀ t, GoodRep σ x r t
       intro g hg hs
       exact (okKids_mem σ (σ.row c) ks hkk g hg).1 (by rw [hs]; exact c2)
     have hv := viaRun_rep σ x r q e.isTable e.isTarget pq its ks h hq hokq st
-    simp only [viaStep, hv, Node.setKids, Node.cls, Node.kids, substL_eq_map]
+    simp only [viaStep, hv, Node.setKids, Node.cls, Node.kids, substL_eq_map, and_true]
     congr 1
     apply List.map_congr_left
     intro g hg
@@ -328,5 +330,44 @@ theorem goodrep_all (σ : Schema) (x : Nat) (r : Node) : ∀ t, GoodRep σ x r t
       have h2 : ((σ.row c).kind g.slot == Kind.container) = false := by
         simp only [Kind.relevant, Bool.or_eq_false_iff] at hnr; exact hnr.2
       simp [hs, substKid, h1, h2]
+
+end MindsVerif.Walk
+
+namespace MindsVerif.Walk
+/-! ### falsy answers: `query_traversal(child, …) or child` -/
+variable {S : Type}
+
+/-- a plain entry written with the `or` idiom is Python's `or` on the (re-slotted) answer -/
+theorem applyRepl_pyOr (e : Entry) (k : Node) (o : Out S) (hv : e.via = none) (hr : e.repl = .same)
+    (ho : e.orStyle = true) :
+    applyRepl e k o = pyOr (fun _ => o.truthy) (o.repl.map (·.setSlot k.slot))
+      (match o.repl with | some _ => k | none => o.self) := by
+  cases hrepl : o.repl with
+  | none => simp [applyRepl, pyOr, hrepl]
+  | some r => cases ht : o.truthy <;> simp [applyRepl, pyOr, hrepl, ht, ho, hr, hv]
+
+/-- a falsy answer in an `or` position is dropped: the visited child stays -/
+theorem applyRepl_falsy (e : Entry) (k r : Node) (o : Out S) (ho : e.orStyle = true) (hrepl : o.repl = some r)
+    (ht : o.truthy = false) : applyRepl e k o = k := by
+  simp [applyRepl, hrepl, ht, ho]
+
+/-- for a plain entry the answer takes the child's place **iff** the position is not an `or` position, or the answer is
+truthy (or it happens to equal the child) -/
+theorem applyRepl_exact_iff (e : Entry) (k r : Node) (o : Out S) (hv : e.via = none) (hr : e.repl = .same)
+    (hrepl : o.repl = some r) :
+    applyRepl e k o = r.setSlot k.slot ↔ (e.orStyle = false ∨ o.truthy = true ∨ r.setSlot k.slot = k) := by
+  cases ho : e.orStyle <;> cases ht : o.truthy <;> simp [applyRepl, hrepl, ho, ht, hr, hv, eq_comm]
+
+/-- when no class is falsy-capable every node object is truthy -/
+theorem truthy_all (σ : Schema) (h : σ.all (fun r => !r.falsy) = true) (n : Node) : truthyIn σ n = true := by
+  have : (σ.row n.cls).falsy = false := by
+    simp only [Schema.row]
+    by_cases hc : n.cls < σ.length
+    · rw [List.getD_eq_getElem?_getD, List.getElem?_eq_getElem hc]
+      have := (List.all_eq_true.mp h) _ (List.getElem_mem hc)
+      simpa using this
+    · rw [List.getD_eq_getElem?_getD, List.getElem?_eq_none (Nat.le_of_not_lt hc)]
+      rfl
+  simp [truthyIn, this]
 
 end MindsVerif.Walk
